@@ -73,7 +73,7 @@ def check_renderer_families(S, ev, r1):
             r1.ok("%s::%s recurses only into its own family (%d recursive positions)" % (owner, entry, n_rec))
 
 
-def struct_emitter_total(P, r2_pending, r2_ok, rid="C10-D2-names-and-keys"):
+def struct_emitter_total(P, r2_pending, r2_ok, rid="C10-D2-names-and-keys", with_shape=False):
     """generate_struct_schema has no way out that emits nothing; shared by C10-D2 and C07-D6 (violations are appended to the given lists)"""
     gss = [f_ for k_, f_ in P.fns.items() if re.sub(r"::<[^>]*>", "", k_).endswith("ZodBindingsGenerator::generate_struct_schema")]
     for f_ in gss:
@@ -100,6 +100,18 @@ def struct_emitter_total(P, r2_pending, r2_ok, rid="C10-D2-names-and-keys"):
             r2_ok.append("generate_struct_schema: every path emits through one of the two schema emitters")
     if not gss:
         r2_pending.append(V(rid, "<anchor>", "missing:generate_struct_schema", "anchor not found"))
+    # ... and the object emitter has one shape for every struct: each way out of generate_object_schema passes through the render of the schema
+    # template (the sibling of the plain interface template); a hand-written early exit for some structs ("no fields": `z.null()`) declares a
+    # different shape than `interface X {}` does
+    for f_ in [g_ for k_, g_ in P.fns.items() if with_shape and re.sub(r"::<[^>]*>", "", k_).endswith("ZodBindingsGenerator::generate_object_schema")]:
+        rc = [c for c in f_.calls if c.name == "render" and c.bb in f_.reach_blocks]
+        rets = [b for b in f_.reach_blocks if f_.blocks[b]["term"]["k"] == "return"]
+        if rc and rets:
+            if all(any(f_.dominates(c.bb, r_) for c in rc) for r_ in rets):
+                r2_ok.append("generate_object_schema: every path renders the schema template")
+            else:
+                r2_pending.append(V(rid, f_.id, "object-schema-bypasses-template", "generate_object_schema can return text that did not come from the schema template: "
+                                    "some structs get another shape in Zod mode than the interface the plain mode declares"))
 
 
 def check(ctx):
@@ -248,7 +260,7 @@ def check(ctx):
             else:
                 r2_ok.append("%s: one context per parsed field" % suffix)
     # every struct the plain mode declares gets a schema: generate_struct_schema has no way out that emits nothing
-    struct_emitter_total(ctx.P, r2_pending, r2_ok)
+    struct_emitter_total(ctx.P, r2_pending, r2_ok, with_shape=True)
     # the `?` of the plain declaration agrees with the schema's .optional(): both look at the type's last path segment (rule shared with C04-D4)
     from c04 import check_optional_predicate, _P_holder
     _P_holder["P"] = ctx.P
